@@ -65,6 +65,12 @@ def judgeProxy (st : ProxySt) (fields : List String) : ProxySt × String :=
             (if sm ≠ m then " TRIP upstream_saw_diff:method" else "")
             ++ (if sb ≠ body then " TRIP upstream_saw_diff:body" else "")
             ++ (if st.l.rewrites.isEmpty ∧ sp ≠ path then " TRIP upstream_saw_diff:path" else "")
+            -- a `$k` of a rule's value that names one of the rule's wildcards never reaches the upstream verbatim
+            ++ (if (st.l.rewrites.any fun (pat, value) =>
+                    (List.range (pat.filter (· = '*')).length).any fun i =>
+                      let tok : Str := ['$', Char.ofNat ('1'.toNat + i)]
+                      Str.contains tok value && Str.contains tok sp && !Str.contains tok path)
+                then " TRIP upstream_saw_diff:path:unsubstituted" else "")
             ++ (if !(Str.hasPrefix rawq sq) ∨ (st.l.query.isEmpty ∧ sq ≠ rawq) then " TRIP upstream_saw_diff:query" else "")
             ++ (if xs = "fetching".toList ∧ stripped.any (fun k => !(sh.values k).isEmpty ∧ !(st.l.reqHeaders.any (·.1 = k))) then " TRIP conditional_leaked" else "")
             ++ (if keys.any (fun k => !stripped.contains k ∧ k ≠ hAcceptEncoding ∧ !(st.l.reqHeaders.any (·.1 = k)) ∧ sh.values k ≠ h.values k) then " TRIP upstream_saw_diff:header" else "")
